@@ -24,7 +24,8 @@ TITLE = "assignment writes exactly the addressed cells"
 RULE = ("product of (float/int/bool/object arrays 1-3D with mixed-kind axes) x (index menus of C01/C02 in label and "
         "position mode + N-d boolean masks) x RHS (scalar, array of the selection's shape, broadcastable row, 0-d) x "
         "spellings (a[]=, put, put dict/axis=, .loc[]=, .ix[]=, .iloc[]=, indexing='position') x inplace; cast table over "
-        "(bool,int,float,object) x (bool,int,float,nan,str); non-trivial = the index addresses at least one cell or raises")
+        "(bool,int,float,object,float32,int32,int8,uint8) x (bool,int,float,nan,str and values the narrow types cannot hold: 2**40, 300, -1, "
+        "1e300, 0.1, 16777217); non-trivial = the index addresses at least one cell or raises")
 ASSUMPTIONS = ["reference positions from mc/ref.py (same resolver as C01/C02)", "NumPy broadcasting of the RHS to the selection shape"]
 NAMES = ["x", "y", "z"]
 LENS = [3, 2, 3]
